@@ -282,6 +282,24 @@ Definition tight_ok (before : list pool) (e : entry) (ra : ralloc) : bool :=
   | _, _ => true
   end.
 
+(** min-fraction rule: a fractional remainder is taken from the partly used index of its group with the
+    LEAST free fraction that still fits; only if none fits a whole free index is split *)
+Definition min_fraction_ok (before : list pool) (e : entry) (ra : ralloc) : bool :=
+  match nth_error before (nat_of (e_res e)) with
+  | Some p =>
+      forallb (fun ix =>
+        if ai_frac ix =? 0 then true
+        else match nth_error (pool_groups p) (nat_of (ai_group ix)) with
+             | Some g =>
+                 match cand_min (g_fr g) (ai_frac ix) with
+                 | Some mn => match fget (g_fr g) (ai_index ix) with Some v => v =? mn | None => false end
+                 | None => memN (ai_index ix) (g_idx g)
+                 end
+             | None => false
+             end) (ra_indices ra)
+  | None => true
+  end.
+
 (** optimality of a solver answer, checked per answer (DESIGN C16 Limits): no assignment of masks
     has a larger objective.  Brute force over all mask tuples. *)
 Fixpoint all_mask_tuples (rows : list (list (N * N) * N * N)) : list (list mask) :=
